@@ -86,6 +86,9 @@ FIXED = {
     'proto_unused': 'char a; void f(); void g() { a = 1; } void f() { a = 2; } void h() { g(); } void main() { f(); }',
     'cycle': 'char a; void f(); void g() { if (a) f(); } void f() { a--; g(); } void main() { f(); }',
     'interrupt': 'char a; void k() { a++; } void interrupt nmi() { k(); } void u() { a = 3; } void main() { a = 0; }',
+    'interrupt_proto_plain': 'char t; void tick() { t++; } void vblank(); void unused() { t = 9; } void interrupt vblank() { tick(); } void main() { while (t) { } }',
+    'interrupt_proto_qualified': 'char t; void tick() { t++; } void interrupt vblank(); void unused() { t = 9; } void interrupt vblank() { tick(); } void main() { while (t) { } }',
+    'interrupt_two': 'char t; void tick() { t++; } void tock() { t--; } void a_irq(); void b_irq(); void interrupt b_irq() { tock(); } void interrupt a_irq() { tick(); } void main() { t = 0; }',
     'in_condition': 'char a, b; char t(char x) { return x + 1; } char u(char x) { return x; } void main() { if (t(a) == 2 && u(b)) a = 0; for (X = t(b); X != 3; X = u(X) + 1) { } }',
     'inline_calls_further': 'char a; void deep() { a++; } inline void mid() { deep(); } void main() { mid(); mid(); }',
 }
@@ -93,6 +96,9 @@ FIXED_GRAPH = {
     'proto_unused': ({'g': [], 'f': [], 'h': ['g'], 'main': ['f']}, ['main']),
     'cycle': ({'g': ['f'], 'f': ['g'], 'main': ['f']}, ['main']),
     'interrupt': ({'k': [], 'nmi': ['k'], 'u': [], 'main': []}, ['main', 'nmi']),
+    'interrupt_proto_plain': ({'tick': [], 'unused': [], 'vblank': ['tick'], 'main': []}, ['main', 'vblank']),
+    'interrupt_proto_qualified': ({'tick': [], 'unused': [], 'vblank': ['tick'], 'main': []}, ['main', 'vblank']),
+    'interrupt_two': ({'tick': [], 'tock': [], 'a_irq': ['tick'], 'b_irq': ['tock'], 'main': []}, ['main', 'a_irq', 'b_irq']),
     'in_condition': ({'t': [], 'u': [], 'main': ['t', 'u', 't', 'u']}, ['main']),
     'inline_calls_further': ({'deep': [], 'mid': ['deep'], 'main': ['mid', 'mid']}, ['main']),
 }
@@ -136,17 +142,20 @@ def graph_program(rng):
     rng.shuffle(names)
     names = names[:rng.randrange(3, len(names) + 1)]
     g = {}
-    L = ['unsigned char v;'] + ['void %s();' % f for f in names]
+    # some functions are interrupt handlers (roots of the in-use set besides main); the qualifier is on the
+    # definition, and on the prototype or not; a handler is not called
+    handlers = [f for f in names if rng.random() < 0.25][:2]
+    L = ['unsigned char v;'] + ['void %s%s();' % ('interrupt ' if f in handlers and rng.random() < 0.5 else '', f) for f in names if rng.random() < 0.8]
     for k, f in enumerate(names):
-        callees = [c for c in names if c != f and rng.random() < 0.4]
+        callees = [c for c in names if c != f and c not in handlers and rng.random() < 0.4]
         if rng.random() < 0.2 and callees:
             callees.append(rng.choice(callees))
         g[f] = callees
-        L.append('void %s() { v++; %s }' % (f, ' '.join('%s();' % c for c in callees)))
-    mc = [c for c in names if rng.random() < 0.5] or [names[-1]]
+        L.append('void %s%s() { v++; %s }' % ('interrupt ' if f in handlers else '', f, ' '.join('%s();' % c for c in callees)))
+    mc = [c for c in names if c not in handlers and rng.random() < 0.5] or [x for x in names if x not in handlers][-1:]
     g['main'] = mc
     L.append('void main() { %s }' % ' '.join('%s();' % c for c in mc))
-    return '\n'.join(L) + '\n', g
+    return '\n'.join(L) + '\n', g, ['main'] + handlers
 
 
 def run(ctx):
@@ -160,9 +169,9 @@ def run(ctx):
     srcs = {k: p.source() for k, p in progs.items()}
     graphs = {k: (source_graph(p), ['main']) for k, p in progs.items()}
     for i in range(400 if quick else 8000):
-        src, g = graph_program(rng)
+        src, g, roots_ = graph_program(rng)
         srcs['g%d' % i] = src
-        graphs['g%d' % i] = (g, ['main'])
+        graphs['g%d' % i] = (g, roots_)
     srcs.update(FIXED)
     graphs.update(FIXED_GRAPH)
     viol = []
